@@ -181,6 +181,84 @@ def h_opt_generic(run, shoot):
     return h
 
 
+def _sig_handler(run, shoot, fn, buggy, correct):
+    def h(e):
+        r, gen, _ = _run(run, shoot, e)
+        if r["panicked"] or r["timed_out"]:
+            return "other: panic/timeout"
+        if r["rc"] != 0:
+            return "other: shoot exit %s: %s" % (r["rc"], r["err"][-300:])
+        s = _sig(gen, fn)
+        if s is None:
+            return "other: %s not generated" % fn
+        if s[1] in buggy:
+            return "buggy"
+        if s[1] in correct:
+            return "correct"
+        return "other: %s(%s)" % (fn, s[1])
+    return h
+
+
+def h_foreign_unexported(run, shoot):
+    def h(e):
+        r, gen, _ = _run(run, shoot, e)
+        if r["panicked"] or r["timed_out"]:
+            return "other: panic/timeout"
+        if r["rc"] != 0:
+            return "other: shoot exit %s: %s" % (r["rc"], r["err"][-300:])
+        s = _sig(gen, "NewT")
+        if s is None:
+            return "other: NewT not generated"
+        if "readOp" in s[1] or "buf []byte" in s[1]:
+            return "buggy"
+        if s[1] == "n int":
+            return "correct"
+        return "other: NewT(%s)" % s[1]
+    return h
+
+
+def h_method_collision(run, shoot):
+    def h(e):
+        r, gen, _ = _run(run, shoot, e)
+        if r["panicked"] or r["timed_out"]:
+            return "other: panic/timeout"
+        if r["rc"] != 0:
+            return "correct"          # refused with a diagnostic
+        txt = "".join(gen.values())
+        n = len(re.findall(r"^func \(w \*W\) With\(", txt, re.M))
+        if n >= 2:
+            return "buggy"
+        if n == 1:
+            return "correct"
+        return "other: %d With methods" % n
+    return h
+
+
+def h_promoted_def(run, shoot):
+    def h(e):
+        r, gen, _ = _run(run, shoot, e)
+        if r["rc"] != 0:
+            return "other: shoot exit %s: %s" % (r["rc"], r["err"][-300:])
+        s = _sig(gen, "NewW")
+        if s is None or s[1] != "k int":
+            return "other: NewW(%s)" % (s[1] if s else None)
+        txt = "".join(gen.values())
+        return "correct" if re.search(r"\bq:\s+5,", txt) else "buggy"
+    return h
+
+
+def h_opt_excluded(run, shoot):
+    def h(e):
+        r, gen, _ = _run(run, shoot, e)
+        if r["rc"] != 0:
+            return "other: shoot exit %s: %s" % (r["rc"], r["err"][-300:])
+        txt = "".join(gen.values())
+        if "func NameOfConf(" not in txt:
+            return "other: NameOfConf missing"
+        return "correct" if "func SecretOfConf(" in txt else "buggy"
+    return h
+
+
 def handlers(run, shoot, prop, extra=None):
     hs = {
         "K_hasnew_leak": h_hasnew_leak(run, shoot),
@@ -193,6 +271,15 @@ def handlers(run, shoot, prop, extra=None):
         "K_ctor_excluded_def": h_excluded_def(run, shoot),
         "K_ctor_excluded_shadow": h_excluded_shadow(run, shoot),
         "K_opt_generic": h_opt_generic(run, shoot),
+        "K_ctor_foreign_unexported": h_foreign_unexported(run, shoot),
+        "K_ctor_ambiguous_promoted": _sig_handler(run, shoot, "NewTop", ["x int, m string, x int, n string, w int"],
+                                                  ["m string, n string, w int"]),
+        "K_ctor_camel_collision": _sig_handler(run, shoot, "NewUser", ["userName string, userName string"],
+                                               ["userName string, userName_ string", "userName string, userName2 string"]),
+        "K_ctor_method_name_collision": h_method_collision(run, shoot),
+        "K_ctor_embed_tag_ignored": _sig_handler(run, shoot, "NewU", ["z string, q int, y int"], ["y int"]),
+        "K_ctor_promoted_def_ignored": h_promoted_def(run, shoot),
+        "K_opt_excluded_field": h_opt_excluded(run, shoot),
     }
     if extra:
         hs.update(extra)
